@@ -99,6 +99,20 @@ CHECKS = {
              "(nesting bound), permissions, FIFOs/devices, non-ASCII names, mmap.",
         technique="Coq proof over path/FS model (realpath vs resolution, prefix lemma, check-before-read); on-disk world correspondence",
         design_ref="§6 C10, §10"),
+    "C02": dict(
+        level="translation_validation",
+        text="Gallina datatypes mirroring onnx.proto with explicit presence, deser/ser written after serde.py, and the documented "
+             "normalisation norm. Proved for all inputs (closed): round trip of dims and denotations, arbitrarily nested types, "
+             "tensor fields (proto-backed, external, string; initializer rename), value-info, metadata on every carrier, flat "
+             "attributes; attributes of all kinds and node scoping are proved relative to a round-trip hypothesis on nested "
+             "graphs. NOT proved: the graph/scoping, function and model stages of C02_roundtrip — for those the statement "
+             "wf p -> norm (ser (deser p)) = norm p is evaluated inside Coq on every generated proto and compared with the "
+             "implementation's to_proto(from_proto(p)) (hence translation validation), plus a stricter norm-aware Python "
+             "diff oracle. IR-version gates and enum members are regenerated from serde.py/_enums.py on every run.",
+        note=TRUST + "Modelled, not verified: protobuf presence/CopyFrom, tensor payload decoding (C04). wf excludes sparse "
+             "attributes, map types and external_data keys other than location/offset/length (known finding).",
+        technique="Coq stage theorems (types, tensors, value-info, attributes) + per-case Coq evaluation of the round-trip statement against serde",
+        design_ref="§6 C02, §10"),
     "C03": dict(
         level="translation_validation",
         text="Proved in Coq for all IR states: serialization is read-only except aligning an initializer tensor's name with its "
@@ -118,8 +132,8 @@ CHECKS = {
         text="An effect-list model of _write_external_data / the sharded path over a small file-system model; proved for every "
              "input, every kill point k and every single fault: the destination is its old node or a file moved wholesale by "
              "os.replace after every action of the write returned normally (never a mixture or truncation) "
-             "(C08_crash_atomic_partial / C08_interrupt_atomic_partial: 'partial' only because byte-identity new = image is "
-             "proved for in-memory/lazy/multi-chunk tensors, not for ExternalTensor sources); on an exception the whole "
+             "(C08_crash_atomic, C08_interrupt_atomic, C08_new_is_image: new bytes = every tensor's bytes at its offset, for "
+             "every tensor kind incl. the chunked ExternalTensor copy; interruptions include BaseException kinds); on an exception the whole "
              "directory equals the initial one, no temp left, external tensors valid and reading old bytes "
              "(C08_exception_clean, full, single-fault assumption in the statement); sharded saves never change a "
              "pre-existing path; invalidation only if replaced. Tie: FS-affecting names rebound to logging proxies; the "
@@ -202,9 +216,10 @@ CHECKS = {
         text="Proved in full: the walk terminates; the extracted node set is exactly the least region closed under "
              "'producer of a needed value' (both inclusions) in original order; exactly the needed initializers; uncovered "
              "required values raise; analyze_implicit_usage returns exactly the outer-scope values used in each nested graph "
-             "or deeper, at every depth. C18_semantics_partial: for every operator semantics the extracted node list "
-             "reproduces the source's values on needed values, under an environment-agreement hypothesis whose three "
-             "discharging facts are proved separately but not assembled. Tie: real extract / analyze_implicit_usage on "
+             "or deeper, at every depth; C18_semantics / C18_semantics_nested: for every operator semantics and environment, "
+             "running the extracted nodes with inputs bound to the source's boundary values and initializers to the source's "
+             "tensors gives the source's values at the outputs (nested bodies evaluated recursively; control operators "
+             "uninterpreted but extensional); source-kind differences (Function, GraphView) stated and proved. Tie: real extract / analyze_implicit_usage on "
              "generated graphs x cuts compared inside Coq; oracle: brute-force scopes, independence, ReferenceEvaluator.",
         note=TRUST + "The cloner's value copying is not modelled (C13); Python set order is a universally quantified shuffle; "
              "value.graph/producer/is_initializer are read from the implementation into the model's value table.",
